@@ -134,9 +134,16 @@ theorem startParams_ok (key : α → Nat) (cfg : ICfg α) (seen rs : List α) (h
     · exact e ▸ hex
     · exact e
 
+omit [DecidableEq α] in
+theorem SubsetOk_mono (cfg : ICfg α) (a b S : List α) (hab : ∀ p ∈ a, p ∈ b) (h : SubsetOk cfg a S) :
+    SubsetOk cfg b S := by
+  obtain ⟨h1, h2, h3, h4, h5, h6⟩ := h
+  exact ⟨h1, h2, h3, fun q hq => (h4 q hq).imp id (hab q), h5, h6⟩
+
 theorem initiateFrom_ok (key : α → Nat) (cfg : ICfg α) (hself : cfg.self ∈ cfg.holders) (hex : cfg.self ∉ cfg.excluded)
     (arr seen rs : List α) (n : Nat) (h : RInv cfg seen rs) (m : Nat) (S : List α)
-    (hres : initiateFrom key cfg rs arr n = some (m, S)) : SubsetOk cfg (seen ++ arr) S := by
+    (hres : initiateFrom key cfg rs arr n = some (m, S)) :
+    ∃ k, k ≤ arr.length ∧ m = n + k ∧ SubsetOk cfg (seen ++ arr.take k) S := by
   induction arr generalizing seen rs n with
   | nil => simp [initiateFrom] at hres
   | cons p ps ih =>
@@ -147,13 +154,33 @@ theorem initiateFrom_ok (key : α → Nat) (cfg : ICfg α) (hself : cfg.self ∈
       simp only [Option.some.injEq, Prod.mk.injEq] at hres
       have := startParams_ok key cfg (seen ++ [p]) _ hstep hself hex hr
       rw [hres.2] at this
-      obtain ⟨a, b, c, d, e, f⟩ := this
-      exact ⟨a, b, c, fun q hq => (d q hq).imp id (fun x => by
-        rcases List.mem_append.1 x with x | x
-        · exact List.mem_append.2 (Or.inl x)
-        · simp at x; subst x; simp), e, f⟩
-    · have := ih (seen ++ [p]) _ (n + 1) hstep hres
-      simpa using this
+      exact ⟨1, by simp, hres.1.symm, by simpa using this⟩
+    · obtain ⟨k, hk, hm, hS⟩ := ih (seen ++ [p]) _ (n + 1) hstep hres
+      exact ⟨k + 1, by simp; omega, by omega, by simpa using hS⟩
+
+theorem initiateTFrom_ok (key : α → Nat) (cfg : ICfg α) (hself : cfg.self ∈ cfg.holders) (hex : cfg.self ∉ cfg.excluded)
+    (evs : List (Arr α)) (seen rs : List α) (n : Nat) (h : RInv cfg seen rs) (m : Nat) (S : List α)
+    (hres : initiateTFrom key cfg rs evs n = some (m, S)) :
+    ∃ k, k ≤ evs.length ∧ m = n + k ∧ SubsetOk cfg (seen ++ readiesOf (evs.take k)) S := by
+  induction evs generalizing seen rs n with
+  | nil => simp [initiateTFrom] at hres
+  | cons e es ih =>
+    cases e with
+    | tick =>
+      simp only [initiateTFrom] at hres
+      obtain ⟨k, hk, hm, hS⟩ := ih seen rs (n + 1) h hres
+      exact ⟨k + 1, by simp; omega, by omega, by simpa [readiesOf] using hS⟩
+    | ready p =>
+      simp only [initiateTFrom] at hres
+      have hstep := rinv_step cfg seen rs p h
+      split at hres
+      · next hr =>
+        simp only [Option.some.injEq, Prod.mk.injEq] at hres
+        have := startParams_ok key cfg (seen ++ [p]) _ hstep hself hex hr
+        rw [hres.2] at this
+        exact ⟨1, by simp, hres.1.symm, by simpa [readiesOf] using this⟩
+      · obtain ⟨k, hk, hm, hS⟩ := ih (seen ++ [p]) _ (n + 1) hstep hres
+        exact ⟨k + 1, by simp; omega, by omega, by simpa [readiesOf] using hS⟩
 
 /-- number of ready key holders -/
 def rpLen (cfg : ICfg α) (rs : List α) : Nat := (readyParticipants cfg.holders rs).length
@@ -439,7 +466,9 @@ theorem coordinator_is_max (key : α → Nat) (l : List α) (c : α) (h : static
     · exact Nat.le_refl _
     · exact List.rel_of_pairwise_cons hs hx
 
-/-- **C07-1 (local view).** Two relayers holding the same key share elect the same coordinator whatever peers their
+/-- **C07-1 (local view)** — DEFINITIONAL: `validCoordinators` ignores its peerstore argument, so this is
+    `coordinator_agreement`; it records the modelling decision that op `newsigning` checks against the real constructors.
+    Two relayers holding the same key share elect the same coordinator whatever peers their
     own libp2p peerstores happen to contain (and in whatever order they list the holders). -/
 theorem election_ignores_local_view (key : α → Nat) (h₁ h₂ ps₁ ps₂ : List α) (hp : h₁.Perm h₂)
     (hinj : ∀ a ∈ h₁, ∀ b ∈ h₁, key a = key b → a = b) :
@@ -455,14 +484,24 @@ theorem key_collision_point :
 
 variable [DecidableEq α]
 
-/-- **C07-2 (announced subset).** For every arrival sequence of ready messages, if `initiate` announces a subset then it
-    has exactly t+1 distinct members, all key holders, each the coordinator itself or a peer that reported ready,
-    it contains the coordinator and no excluded peer. -/
+/-- **C07-2 (announced subset).** For every arrival sequence of ready messages, if `initiate` announces a subset after
+    consuming `n` of them then it has exactly t+1 distinct members, all key holders, each the coordinator itself or a peer
+    whose ready message is among THOSE `n` (not one that arrives later), it contains the coordinator and no excluded
+    peer. -/
+theorem announced_subset_ok_prefix (key : α → Nat) (cfg : ICfg α) (hself : cfg.self ∈ cfg.holders)
+    (hex : cfg.self ∉ cfg.excluded) (arrivals : List α) (n : Nat) (S : List α)
+    (h : initiate key cfg arrivals = some (n, S)) : n ≤ arrivals.length ∧ SubsetOk cfg (arrivals.take n) S := by
+  obtain ⟨k, hk, hm, hS⟩ := initiateFrom_ok key cfg hself hex arrivals [] [cfg.self] 0 (rinv_init cfg) n S h
+  have : n = k := by omega
+  subst this
+  exact ⟨hk, by simpa using hS⟩
+
+/-- (corollary: w.r.t. all arrivals, the weaker form used where the number of consumed messages is not observed) -/
 theorem announced_subset_ok (key : α → Nat) (cfg : ICfg α) (hself : cfg.self ∈ cfg.holders)
     (hex : cfg.self ∉ cfg.excluded) (arrivals : List α) (n : Nat) (S : List α)
-    (h : initiate key cfg arrivals = some (n, S)) : SubsetOk cfg arrivals S := by
-  have := initiateFrom_ok key cfg hself hex arrivals [] [cfg.self] 0 (rinv_init cfg) n S h
-  simpa using this
+    (h : initiate key cfg arrivals = some (n, S)) : SubsetOk cfg arrivals S :=
+  SubsetOk_mono cfg _ _ S (fun _ hp => List.mem_of_mem_take hp)
+    (announced_subset_ok_prefix key cfg hself hex arrivals n S h).2
 
 example : initiate (fun n : Nat => n) ⟨0, [0, 1, 2, 3, 4], 2, [4]⟩ [7, 4, 1, 1, 0, 3, 2] = some (6, [3, 1, 0]) ∧
     (0 : Nat) ∈ [0, 1, 2, 3, 4] ∧ (0 : Nat) ∉ [4] := by decide
@@ -479,16 +518,47 @@ theorem announces_when_enough (key : α → Nat) (cfg : ICfg α) (hself : cfg.se
   · intro q hq; obtain ⟨a, b, c, d⟩ := hE q hq; exact ⟨a, b, c, by simpa using d⟩
   · simp [rpLen, readyParticipants, hself]; omega
 
+/-- **C07-2 (Ready / StartParams on any ready list).** The model's answer meets `SubsetSpec`, the predicate the driver
+    evaluates on the answers of both real Signing types. -/
+theorem startParams_spec (key : α → Nat) (cfg : ICfg α) (ready : List α) :
+    SubsetSpec key cfg.holders cfg.t ready (isReady cfg ready) (startParams key cfg ready) := by
+  have hperm := sortDesc_perm key (readyParticipants cfg.holders ready)
+  have hsort := sortDesc_sorted key (readyParticipants cfg.holders ready)
+  have hsplit := List.take_append_drop (cfg.t + 1) (sortDesc key (readyParticipants cfg.holders ready))
+  refine ⟨by simp [isReady], ?_, ?_, ?_, ?_⟩
+  · simp [startParams, List.length_take, hperm.length_eq]
+  · intro p _
+    have h1 : (startParams key cfg ready).count p ≤ (sortDesc key (readyParticipants cfg.holders ready)).count p :=
+      (List.take_sublist _ _).count_le p
+    rw [hperm.count_eq] at h1
+    exact h1
+  · exact hsort.sublist (List.take_sublist _ _)
+  · intro p _ q hq hlt
+    have hcount : (sortDesc key (readyParticipants cfg.holders ready)).count p =
+        (startParams key cfg ready).count p +
+          ((sortDesc key (readyParticipants cfg.holders ready)).drop (cfg.t + 1)).count p := by
+      have := congrArg (List.count p) hsplit
+      rw [List.count_append] at this
+      simpa [startParams] using this.symm
+    rw [hperm.count_eq] at hcount
+    have hdrop : p ∈ (sortDesc key (readyParticipants cfg.holders ready)).drop (cfg.t + 1) := by
+      apply List.count_pos_iff.1; omega
+    rw [← hsplit] at hsort
+    exact (List.pairwise_append.1 hsort).2.2 q hq p hdrop
+
+example : SubsetSpec (fun n : Nat => n) [0, 1, 2, 3] 1 [1, 7, 3, 1, 2] false [3, 2] := by decide
+
 /-- **C07-2 (the announcement as a whole).** Whatever the collecting loop does satisfies `AnnouncedOk`: a subset that is
     announced meets the C07 clause, and nothing is announced only if fewer than t distinct eligible key holders reported
     ready (or the threshold is 0). This is the predicate the driver evaluates on the implementation's outcome. -/
 theorem initiate_announcedOk (key : α → Nat) (cfg : ICfg α) (hself : cfg.self ∈ cfg.holders)
     (hex : cfg.self ∉ cfg.excluded) (arrivals : List α) :
-    AnnouncedOk cfg arrivals ((initiate key cfg arrivals).map Prod.snd) := by
+    AnnouncedOk cfg (arrivals.take (((initiate key cfg arrivals).map Prod.fst).getD 0)) arrivals
+      ((initiate key cfg arrivals).map Prod.snd) := by
   cases h : initiate key cfg arrivals with
   | some r =>
     obtain ⟨n, S⟩ := r
-    exact announced_subset_ok key cfg hself hex arrivals n S h
+    exact (announced_subset_ok_prefix key cfg hself hex arrivals n S h).2
   | none =>
     show enoughReady cfg arrivals = false
     cases he : enoughReady cfg arrivals with
@@ -529,20 +599,27 @@ theorem ticks_change_nothing (key : α → Nat) (cfg : ICfg α) (evs : List (Arr
     initiate message was re-broadcast before the quorum was reached. -/
 theorem announced_subset_ok_with_ticks (key : α → Nat) (cfg : ICfg α) (hself : cfg.self ∈ cfg.holders)
     (hex : cfg.self ∉ cfg.excluded) (evs : List (Arr α)) (n : Nat) (S : List α)
-    (h : initiateT key cfg evs = some (n, S)) : SubsetOk cfg (readiesOf evs) S := by
-  have h1 := ticks_change_nothing key cfg evs
-  rw [h] at h1
-  cases hi : initiate key cfg (readiesOf evs) with
-  | none => rw [hi] at h1; simp at h1
-  | some r =>
-    obtain ⟨m, S'⟩ := r
-    rw [hi] at h1; simp at h1; subst h1
-    exact announced_subset_ok key cfg hself hex (readiesOf evs) m S hi
+    (h : initiateT key cfg evs = some (n, S)) : n ≤ evs.length ∧ SubsetOk cfg (readiesOf (evs.take n)) S := by
+  obtain ⟨k, hk, hm, hS⟩ := initiateTFrom_ok key cfg hself hex evs [] [cfg.self] 0 (rinv_init cfg) n S h
+  have : n = k := by omega
+  subst this
+  exact ⟨hk, by simpa using hS⟩
 
 theorem initiateT_announcedOk (key : α → Nat) (cfg : ICfg α) (hself : cfg.self ∈ cfg.holders)
     (hex : cfg.self ∉ cfg.excluded) (evs : List (Arr α)) :
-    AnnouncedOk cfg (readiesOf evs) ((initiateT key cfg evs).map Prod.snd) := by
-  rw [ticks_change_nothing]; exact initiate_announcedOk key cfg hself hex (readiesOf evs)
+    AnnouncedOk cfg (readiesOf (evs.take (((initiateT key cfg evs).map Prod.fst).getD 0))) (readiesOf evs)
+      ((initiateT key cfg evs).map Prod.snd) := by
+  cases h : initiateT key cfg evs with
+  | some r =>
+    obtain ⟨n, S⟩ := r
+    exact (announced_subset_ok_with_ticks key cfg hself hex evs n S h).2
+  | none =>
+    have h1 := ticks_change_nothing key cfg evs
+    rw [h] at h1
+    have h2 := initiate_announcedOk key cfg hself hex (readiesOf evs)
+    cases hi : initiate key cfg (readiesOf evs) with
+    | some r => rw [hi] at h1; simp at h1
+    | none => rw [hi] at h2; exact h2
 
 example : initiateT (fun n : Nat => n) ⟨0, [0, 1, 2, 3], 2, []⟩ [.ready 1, .tick, .tick, .ready 3, .ready 2] = some (4, [3, 1, 0]) := by
   decide
@@ -599,7 +676,8 @@ example : (runWait (some 2) [Ev.init 0, Ev.init 2, Ev.start 0 (some 8), Ev.fail 
     (runWait (some 2) [Ev.init 0, Ev.init 2, Ev.start 0 (some 8), Ev.fail 1, Ev.start 2 (some 7), Ev.fail 2]).res = .fail := by
   decide
 
-/-- **C07-3 (authenticated sender).** What a relayer does depends on the envelopes it receives only through the peers
+/-- **C07-3 (authenticated sender)** — DEFINITIONAL: `attributeSender` ignores the claimed origin; the statement records
+    the modelling decision that op `net` checks against the real receive path. What a relayer does depends on the envelopes it receives only through the peers
     their connections are authenticated as: rewriting the origin the envelopes CLAIM — e.g. a committee member naming the
     coordinator — changes nothing; together with `obeys_only_coordinator` it is the coordinator's own connection that is
     obeyed. -/
@@ -611,6 +689,46 @@ theorem claimed_origin_is_ignored (c : α) (envs : List (Envelope α)) (claim : 
   apply List.map_congr_left
   intro e _
   rfl
+
+/-- **C07-3 (the coordinator's own fail watcher).** While a relayer coordinates an attempt, fail messages that its
+    watcher does not accept — in the first attempt: from anyone but the relayer itself, which no authenticated peer can
+    be; in a retried attempt (`cf = none`): from anyone at all — change nothing: the announcement is the one `initiate`
+    makes on the ready messages alone, and the attempt is not aborted. -/
+theorem coordinator_ignores_forged_fails (key : α → Nat) (cfg : ICfg α) (cf : Option α) (tr : List (CoEv α))
+    (h : ∀ f, CoEv.fail f ∈ tr → failFrom cf f = false) :
+    runCoord key cfg cf tr = (initiate key cfg (readiesCo tr), false) := by
+  unfold runCoord initiate
+  generalize [cfg.self] = rs
+  generalize (0 : Nat) = n
+  induction tr generalizing rs n with
+  | nil => simp [coordFrom, readiesCo, initiateFrom]
+  | cons e es ih =>
+    have hes : ∀ f, CoEv.fail f ∈ es → failFrom cf f = false := fun f hf => h f (List.mem_cons_of_mem _ hf)
+    cases e with
+    | fail f =>
+      simp only [coordFrom, readiesCo, h f List.mem_cons_self]
+      exact ih hes rs n
+    | ready p =>
+      simp only [coordFrom, readiesCo, initiateFrom]
+      split
+      · have : abortedBy cf es = false := by
+          simp only [abortedBy, List.any_eq_false]
+          intro e he
+          cases e with
+          | ready q => simp
+          | fail f => simpa using hes f he
+        simp [this]
+      · exact ih hes _ _
+
+/-- in a retried attempt the hypothesis is vacuous: no fail message whatsoever aborts a coordinating relayer -/
+theorem retry_coordinator_ignores_all_fails (key : α → Nat) (cfg : ICfg α) (tr : List (CoEv α)) :
+    runCoord key cfg none tr = (initiate key cfg (readiesCo tr), false) :=
+  coordinator_ignores_forged_fails key cfg none tr (fun _ _ => rfl)
+
+example : runCoord (fun n : Nat => n) ⟨0, [0, 1, 2, 3], 1, []⟩ (some 0) [.fail 2, .ready 7, .fail 1, .ready 2, .fail 3] =
+      (some (2, [2, 0]), false) ∧
+    runCoord (fun n : Nat => n) ⟨0, [0, 1, 2, 3], 1, []⟩ (some 0) [.fail 2, .fail 0, .ready 2] = (none, true) := by
+  decide
 
 /-- genuine messages ARE obeyed (the predicate above is not met by doing nothing): first initiate answered,
     first well-formed start run, fail aborts -/
